@@ -2,6 +2,22 @@
 """Regenerates MANIFEST.json from the table below (kept as code so that the manifest is always valid)."""
 import json, subprocess
 CLAIMED = {
+ "C09": dict(technique="property-based testing of a program generator: random schemas -> tongo's schema compiler -> compiled scratch module -> differential check of every generated type against an independent TL reference codec; determinism by running the generator twice",
+             text="Random TL schemas over the supported subset (conditional fields on every bit 0..31, vectors of builtin and declared types, bare and boxed references, unions of 2..5 constructors, functions) are compiled by tongo's tl/parser; the output must be deterministic, compile and vet; inside the compiled binary every generated type and function is exercised with generated values against the reference TL codec (bytes, decode, request decoder table, client method framing). TL half complete; the TL-B half (tlb/parser) is under construction in this revision. Sampling; batches bounded by compile time.",
+             note="Trusted: harness/internal/tlref (R5), tlbind, tlrun; the go toolchain at run time. Subset limits listed in harness/c09/RULE.txt.",
+             design="DESIGN.md section 4 C09"),
+ "C10": dict(technique="property-based testing: differential comparison of every lite-server binding type with an independent TL reference codec driven by the checked-in schema; exhaustive byte-length sweep; generator-vs-artifact regeneration check",
+             text="The reference codec parses the checked-in lite_api.tl at run time; for every declaration and function, generated values (all mode-bit subsets, byte strings of every length 0..1100 and around 2^16/2^24, vectors, nested unions) must marshal to exactly the reference bytes and unmarshal from them, requests must carry the schema's function id and be recognised by the request decoder; hand-written TL types are covered; liteclient/generated.go and tlb/integers.go must equal what the repository's generators produce (modulo gofmt). Sampling plus exhaustive length sweep.",
+             note="Trusted: harness/internal/tlref (R5) anchored by the CRC32 agreement of 70 of 74 schema ids; tlbind reflection mapping by field position; the go toolchain at run time for the regeneration check.",
+             design="DESIGN.md section 4 C10"),
+ "C19": dict(technique="property-based testing: generated TON Connect proofs with single-field mutations and exhaustive bit sweeps against an independent reference judge (own signer, HMAC and state-init analysis)",
+             text="For eleven wallet versions, keys, workchains, domains, lifetimes, payload kinds and executor behaviours a reference model decides whether a presented proof must be accepted; tongo must return (true, wallet key, nil) exactly then and (false, nil, error) otherwise, never panic; 32 mutation classes and exhaustive single-bit sweeps of signature, address, timestamp, payload and domain are included; ParseStateInit is fuzzed with constructed and damaged state-inits. Sampling; time boundaries probed at +-30 s only.",
+             note="Trusted: harness/internal/tcref (independent ton-proof digest, payload HMAC, state-init analyser), crypto/ed25519 of the standard library.",
+             design="DESIGN.md section 4 C19"),
+ "C04": dict(technique="property-based testing: differential comparison of tongo's encoder (and decoder) with an independent bit-exact TL-B reference writer; exhaustive width/boundary enumeration for primitives; decode/re-encode of real chain records",
+             text="An independent writer for the TL-B primitives and the core block.tlb records produces the expected cell for every generated integer type at all boundary values, for a struct exercising every tag and combinator, for every union constructor tag of the registry and for random Message values; tongo's cell must be identical bit for bit and reference for reference, and the decoder must read the reference cell as the same value (so symmetric encoder/decoder mistakes are caught). ~4000 real messages and transactions are decoded and re-encoded to the source hash. Exhaustive in the width/boundary dimension, sampled elsewhere.",
+             note="Trusted: harness/internal/tlbref (written from the schema text quoted in the repository), R1/R2. Records containing non-empty dictionaries are compared by hash only when the re-encoding happens to be identical (label forms are not unique).",
+             design="DESIGN.md section 4 C04"),
  "C05": dict(technique="property-based testing: model-based put/get/update sequences over all key types against a Go map and an independent reference dictionary codec (differential decode, foreign label forms, insertion-order metamorphic relation)",
              text="For every key type used in the library, generated key sets in adversarial shapes are inserted in drawn orders with updates; the encoding is decoded by tongo and by an independent decoder and compared with a map model in ascending key-bit order; the encoding hash must not depend on insertion order; dictionaries written by the reference encoder with every label form must decode, answer lookups and accept updates. Sampling.",
              note="Trusted: harness/internal/ref/hashmap.go (R4 dictionary codec written from the Hashmap/HmLabel schema), reference hasher R2. Values are 32-bit integers (leaf payload without references).",
